@@ -46,7 +46,7 @@ inline cocls::generator<int> g_body(g_world &W, int src) {
         if (op.kind == GO_YIELD) { int yv = op.arg; co_yield yv; }
         else if (op.kind == GO_AWAIT_READY) { cocls::future<int> f = cocls::future<int>::set_value(5); int v = co_await f; (void)v; }
         else if (op.kind == GO_AWAIT_PENDING) { W.await_started[op.arg].store(1, std::memory_order_release); bool hv = co_await W.pend[op.arg].has_value(); (void)hv; }
-        else if (op.kind == GO_THROW) { throw vf::test_exc{op.arg}; }
+        else if (op.kind == GO_THROW) { if (op.arg >= 900) throw cocls::await_canceled_exception(); throw vf::test_exc{op.arg}; }
         else break;
     }
     if (!guard.ok()) throw vf::test_exc{-5};
@@ -63,7 +63,7 @@ inline cocls::generator<int, int> g_body_arg(g_world &W, int src) {
         if (op.kind == GO_YIELD) { int yv = op.arg; int x = co_yield yv; W.seen_args[src].push_back(x); }
         else if (op.kind == GO_AWAIT_READY) { cocls::future<int> f = cocls::future<int>::set_value(5); int v = co_await f; (void)v; }
         else if (op.kind == GO_AWAIT_PENDING) { W.await_started[op.arg].store(1, std::memory_order_release); bool hv = co_await W.pend[op.arg].has_value(); (void)hv; }
-        else if (op.kind == GO_THROW) { throw vf::test_exc{op.arg}; }
+        else if (op.kind == GO_THROW) { if (op.arg >= 900) throw cocls::await_canceled_exception(); throw vf::test_exc{op.arg}; }
         else break;
     }
     W.body_ended[src].fetch_add(1, std::memory_order_relaxed);
@@ -87,7 +87,7 @@ cocls::async<void> g_async_step(Gen &g, int style, int arg, long &item, std::ato
             if constexpr (WithArg) { b = co_await g.next(arg); } else { b = co_await g.next(); }
             if (b) item = g.value();
         }
-    } catch (const vf::test_exc &e) { item = -1000 - e.code; }
+    } catch (const vf::test_exc &e) { item = -1000 - e.code; } catch (const cocls::await_canceled_exception &) { item = -1000 - 900; }
     catch (...) { item = -888888; } // an exception the body never threw: mismatch for the oracle
     done.store(1, std::memory_order_release);
 }
@@ -149,7 +149,7 @@ void g_consume(g_world &W, Gen &g, vf::rng r, bool allow_sync, bool helper_resol
                     break;
                 }
                 }
-            } catch (const vf::test_exc &e) { item = -1000 - e.code; }
+            } catch (const vf::test_exc &e) { item = -1000 - e.code; } catch (const cocls::await_canceled_exception &) { item = -1000 - 900; }
             catch (...) { item = -888888; }
         }
         W.got.push_back(item);
@@ -178,7 +178,7 @@ cocls::async<void> g_consume_coro(g_world &W, Gen &g, vf::rng r) {
                 if constexpr (WithArg) { b = co_await g.next(arg); } else { b = co_await g.next(); }
                 if (b) item = g.value();
             }
-        } catch (const vf::test_exc &e) { item = -1000 - e.code; }
+        } catch (const vf::test_exc &e) { item = -1000 - e.code; } catch (const cocls::await_canceled_exception &) { item = -1000 - 900; }
         catch (...) { item = -888888; }
         W.got.push_back(item);
         if (item < 0) break;
@@ -207,7 +207,7 @@ inline void g_consume_walk(g_world &W, cocls::generator<int> &g, int variant) {
         if (variant == 0) { for (int &v : g) W.got.push_back(v); }
         else { for (auto it = g.begin(); it != g.end();) { auto z = it++; W.got.push_back(z._v); } } // holder member read directly: operator* of the holder does not compile (const method returning int&)
         W.got.push_back(-1);
-    } catch (const vf::test_exc &e) { W.got.push_back(-1000 - e.code); }
+    } catch (const vf::test_exc &e) { W.got.push_back(-1000 - e.code); } catch (const cocls::await_canceled_exception &) { W.got.push_back(-1000 - 900); }
     catch (...) { W.got.push_back(-888888); }
     W.consumer_done.store(1, std::memory_order_release);
 }
@@ -239,7 +239,7 @@ inline std::vector<g_op> g_random_script(vf::rng &r, int src, bool allow_pending
         if (x < 55 || infinite) { sc.push_back({GO_YIELD, src * 1000 + (++yi)}); if (infinite && r.chance(1, 6)) sc.push_back({GO_AWAIT_READY, 0}); }
         else if (x < 70) sc.push_back({GO_AWAIT_READY, 0});
         else if (x < 88 && allow_pending && pend_next < G_NPEND) sc.push_back({GO_AWAIT_PENDING, pend_next++});
-        else if (x < 93) { sc.push_back({GO_THROW, 10 + src}); break; }
+        else if (x < 93) { sc.push_back({GO_THROW, r.chance(1, 4) ? 900 : 10 + src}); break; } // 900: the body lets the library's await_canceled_exception escape
         else if (x < 96) { sc.push_back({GO_RETURN, 0}); break; }
     }
     return sc;
